@@ -731,6 +731,30 @@ def rule_r4_r5(ctx):
         # a pattern compiled elsewhere: judge the anchoring of that compilation if it is visible in this module
         comp = [c for q_, f_ in module.functions() for c in calls_in(f_) if call_name(c) == "re.compile" and c.args and isinstance(c.args[0], (ast.JoinedStr, ast.BinOp, ast.Constant))]
         used = [c for c in calls_in(ctor) if isinstance(c.func, ast.Attribute) and c.func.attr in ("match", "search", "fullmatch") and not (call_name(c) or "").startswith("re.")]
+        # `helper(pattern).fullmatch(subject)` with a module-level helper that returns re.compile(<its parameter>[, flags]) (e.g. a cached compilation)
+        via = [c for c in used if isinstance(c.func.value, ast.Call) and isinstance(c.func.value.func, ast.Name) and isinstance(module.get(c.func.value.func.id), ast.FunctionDef)]
+        if not re_calls and len(via) == 1 and len(used) == 1:
+            u = via[0]
+            hf = module.get(u.func.value.func.id)
+            hp = [a.arg for a in hf.args.args]
+            rets = [r for r in walk_local(hf) if isinstance(r, ast.Return) and r.value is not None]
+            if len(rets) == 1 and isinstance(rets[0].value, ast.Call) and call_name(rets[0].value) == "re.compile" and rets[0].value.args and isinstance(rets[0].value.args[0], ast.Name) and rets[0].value.args[0].id in hp:
+                cc = rets[0].value
+                construct = f"{Z3H}:{name}"
+                flags = " ".join(src(a) for a in cc.args[1:]) + " ".join(src(k.value) for k in cc.keywords)
+                ctx.check(u.func.attr == "fullmatch", "R5-anchoring", construct, "full match", site(u), f"`.{u.func.attr}` on the compiled pattern is not an exact full match", "Pattern.fullmatch anchors both ends exactly")
+                pat = u.func.value.args[hp.index(cc.args[0].id)] if len(u.func.value.args) > hp.index(cc.args[0].id) else None
+                subj = u.args[0] if u.args else None
+                ctx.check(pat is not None and subj is not None and nsrc(pat).find(f"{p}[1]") >= 0 and nsrc(subj) == f"{p}[0]", "R5-child-order", construct, "pattern=child 1, subject=child 0", site(u),
+                          f"str.in_re has the string as child 0 and the regex as child 1; found pattern={src(pat) if pat is not None else None} subject={src(subj) if subj is not None else None}", "child order as in Z3")
+                if emits_dot:
+                    ctx.check("DOTALL" in flags or "re.S" in flags.split(), "R5-dotall", construct, f"'.' emitted by {','.join(sorted(emits_dot))}", site(cc),
+                              f"producers {emits_dot} emit '.', which excludes newline unless the pattern is compiled with re.DOTALL (`{src(cc)}` in {hf.name}): \"a\\nb\" in re.all is judged false",
+                              "DOTALL set")
+                body = ctor_return_exprs(ctor)[0]
+                okform = isinstance(body, ast.Compare) and isinstance(body.ops[0], ast.IsNot) and is_none(body.comparators[0]) and body.left is u
+                ctx.check(okform, "R5-result", construct, "match(...) is not None", site(u), f"membership verdict must be `<match> is not None`, found {nsrc(body)}", "verdict is match success")
+                return
         if not re_calls and used and comp:
             lit = "".join(x for x in (template(comp[0].args[0]) or []) if isinstance(x, str))
             exact = used[0].func.attr == "fullmatch" or lit.endswith("\\Z")
